@@ -128,6 +128,9 @@ pub fn exec<T: Sc>(case: &C08Case) -> Check {
         out.class("N<M");
     }
     out.class(base.flavour());
+    for r in base.regime() {
+        out.class(r);
+    }
     out.class(format!("profile:{}", if cfg!(debug_assertions) { "overflow-checked" } else { "release" }));
     Ok(out)
 }
